@@ -2,13 +2,25 @@
 import json
 import os
 
-from .. import core, frame, gen, lab, trees
+from .. import ambient, core, frame, gen, lab, trees
 from ..decomp import decompose
 
 PROP = "C06"
 
 
-def run_case(built, files, structured, macros, use_cache=None, lock=None):
+NEAR_GRAMMAR = [
+    # argument forms of newer log releases and of other logging crates: the tool may leave them alone or handle them, but whatever
+    # it inserts must round-trip like any other reference
+    'info!(logger: audit_logger, "NG%d record written");', 'warn!(logger: self.logger, k = 1; "NG%d with a key");',
+    'error!(logger: LOGGER, target: "net", "NG%d with logger and target");', 'info!(parent: &span, "NG%d tracing parent");',
+    'warn!(name: "evt", target: "t", "NG%d tracing name");', 'info!(%%user, ?req; "NG%d sigil shorthand");',
+    'error!(target = "t", "NG%d target with equals");', 'info!(Level::Info, "NG%d level first");',
+    'warn!(target: TARGET_CONST, "NG%d constant target");', 'info!(key: 1, "NG%d colon key");',
+    'info! { "NG%d braces" };', 'warn!["NG%d brackets"];', 'error!(target: "t", logger: l, "NG%d target then logger");',
+]
+
+
+def run_case(built, files, structured, macros, use_cache=None, lock=None, amb=None):
     with core.Box(tag="c06") as box:
         cfg_text = core.make_config(structured=True if structured else None, macros=macros, use_cache=use_cache)
         for rel, data in files.items():
@@ -17,6 +29,8 @@ def run_case(built, files, structured, macros, use_cache=None, lock=None):
         lockp = os.path.join(box.proj, "Breadlog.lock")
         if lock is not None:
             open(lockp, "w").write(lock)
+        if amb:
+            ambient.apply(box.proj, amb)
         e1 = core.run_breadlog(built, box, cfg, trace=True, timeout=300)
         after1 = {rel: box.read(rel) for rel in files}
         lock1 = core.read_lock(lockp)
@@ -95,13 +109,19 @@ def work(job):
             # statements that never receive an ID although they have none: unusable ref values, ignored statements
             files["src/unusable.rs"] = ('fn u() {\n    info!(ref = request_id; "unusable one");\n    warn!(a = 1, ref = "x"; "unusable two");\n'
                                         '    // breadlog:ignore\n    error!("ignored");\n}\n').encode()
+        if rnd.random() < 0.4:
+            body = "".join("    %s\n" % (x % k) for k, x in enumerate(rnd.sample(NEAR_GRAMMAR, 5)))
+            files["src/neargrammar.rs"] = ("fn ng() {\n%s    info!(\"NG ordinary\");\n}\n" % body).encode()
+            res["counters"]["trees_with_near_grammar_statements"] = 1
         if use_cache is not False and rnd.random() < 0.3 and t.existing:
             lock = core.lock_text(max(t.existing) + 1 + rnd.choice([0, 5]))
     elif kind == "corpus":
         label, files = payload
         structured = (i % 2 == 1)
         macros = gen.DEFAULT_MACROS + [("log", "debug"), ("log", "trace")]
-    r = run_case(built, files, structured, macros, use_cache, lock)
+    amb = ambient.choose(rnd, files, p=0.35)
+    res["counters"]["ambient_" + amb["kind"]] = 1
+    r = run_case(built, files, structured, macros, use_cache, lock, amb)
     for x in (r["e1"], r["ck"], r["e2"]):
         if x.panicked() or x.timed_out:
             res["inconclusive"]["run-crashed-or-timeout (C17's business)"] = 1
@@ -121,7 +141,7 @@ def work(job):
         sig = "C06.%s|%s" % (clause, "structured" if structured else "unstructured")
         res["violations"].append({"signature": sig, "detail": dict(detail, kind=kind, use_cache=use_cache),
                                   "case": {"files": {k: files[k] for k in list(files)[:6]}, "structured": structured,
-                                           "use_cache": use_cache, "lock": lock}})
+                                           "use_cache": use_cache, "lock": lock, "ambient": amb}})
     if i == 0 and kind == "gen":
         res["samples"].append({"files": sorted(files), "tokens": info["tokens"], "hook_readbacks": info["readback"],
                                "lock_after_first": r["lock1"], "lock_after_second": r["lock2"], "check_exit": r["ck"].rc})
@@ -156,7 +176,8 @@ def replay_witness(w, ck=None, built=None):
     built = built or (ck.built if ck else None) or core.build_repo()
     c = w["case"] if "case" in w else w["first"]["case"]
     files = {rel: (bytes.fromhex(d["hex"]) if isinstance(d, dict) else d.encode("utf-8")) for rel, d in c["files"].items()}
-    r = run_case(built, files, c["structured"], gen.DEFAULT_MACROS + [("log", "debug"), ("log", "trace")], c.get("use_cache"), c.get("lock"))
+    r = run_case(built, files, c["structured"], gen.DEFAULT_MACROS + [("log", "debug"), ("log", "trace")], c.get("use_cache"), c.get("lock"),
+                 ambient.from_json(c.get("ambient")))
     v, _ = judge(files, r, built)
     return bool(v) and v not in ("precondition", "c03")
 
